@@ -10,7 +10,7 @@ IB(op, b) == [op |-> op, b |-> b]
 IP(op, p) == [op |-> op, p |-> p]
 Call(tgt, bs, ps, rs, as, blob) == [op |-> "call", tgt |-> tgt, bs |-> bs, ps |-> ps, rs |-> rs, as |-> as, blob |-> blob]
 Common ==
-  {I("take"), I("proof_az"), I("pop"), I("drop_all"), I("alloc")}
+  {I("take"), I("proof_az"), I("pop"), I("drop_all"), I("drop_named"), I("drop_az"), I("alloc")}
   \cup {IB(op, b) : op \in {"return", "proof_b"}, b \in {0, 1}}
   \cup {IP(op, p) : op \in {"push", "clone", "drop"}, p \in {0, 1}}
   \cup {Call(-1, <<>>, <<>>, <<>>, <<>>, 0), Call(-1, <<0>>, <<>>, <<>>, <<>>, 0), Call(-1, <<1>>, <<>>, <<>>, <<>>, 0),
